@@ -19,9 +19,9 @@ META = dict(
     id='C15',
     level='proof',
     technique='Coq proof (recursive-descent parser model vs the precedence grammar; calc/compile/print model) + differential correspondence of the extracted model against ledger + reference evaluator',
-    level_text='Theorems in coq/Properties/Properties_C15.v state, for all expressions of the operator grammar, that the model of parser.cc parses the minimally parenthesised text (and any more heavily parenthesised one) of an abstract expression to exactly its tree (precedence unary > * / > + - > comparisons > & > | > ?:, left associativity, parentheses override), that op_t::print output parses back to the same tree on the ternary-free fragment (refuted with witness for ?:, finding F6), that & | ?: evaluate only the operands the grammar says, that compiled identifiers keep the meaning they had at definition, and that constant folding and compilation preserve values. The model is tied to the code by running thousands of generated expressions through freshly built ledger (text as parsed, exact values through verif_rational, re-parse of the printed text) and through the extracted model.',
+    level_text='Theorems in coq/Properties/Properties_C15.v state, for all expressions of the operator grammar, that the model of parser.cc parses the minimally parenthesised text (and any more heavily parenthesised one) of an abstract expression to exactly its tree (precedence unary > * / > + - > comparisons > & > | > ?:, left associativity, parentheses override), that op_t::print output parses back to the same tree, conditionals included, that & | ?: evaluate only the operands the grammar says, that compiled identifiers keep the meaning they had at definition, and that constant folding and compilation preserve values. The model is tied to the code by running thousands of generated expressions through freshly built ledger (text as parsed, exact values through verif_rational, re-parse of the printed text) and through the extracted model.',
     level_note='Trusted: Coq kernel; extraction + OCaml driver and python harness for the correspondence; the tokenizer is exercised by the correspondence (the model starts from tokens); value arithmetic is Model/Amount.v (C03). Not modelled: strings, dates, regex masks, member lookup, sequences as values, per-SCOPE symbol tables (use-before-definition inside a body).',
-    design_ref='DESIGN.md section 7 C15, section 9 F1 F6',
+    design_ref='DESIGN.md section 7 C15, section 9 F1 (F6 and F34 repaired)',
     assumptions=['expressions avoid built-in function names, the predefined time commodities s/m/h and reserved words as identifiers',
                  'INTEGER values stay within C long',
                  'identifiers are defined before use; every binder name in an expression is distinct (except in the directed scoping cases)',
@@ -236,12 +236,12 @@ def oprint(e):
         c, a, b = oprint(e[1]), oprint(e[2]), oprint(e[3])
         if None in (c, a, b):
             return None
-        return '(%s ? (%s : %s))' % (c, a, b)      # the shape op.cc prints (finding F6)
+        return '(%s ? %s : %s)' % (c, a, b)
     if k == 'ifonly':
         c, a = oprint(e[1]), oprint(e[2])
         if None in (c, a):
             return None
-        return '(%s ? (%s : null))' % (c, a)
+        return '(%s ? %s : null)' % (c, a)
     if k == 'call':
         f = oprint(e[1])
         args = [oprint(a) for a in e[2]]
@@ -931,10 +931,12 @@ def process(ctx, res, rows, cat):
                                            case=dict(expr=c.text, journal=ctx.journal_text), observed=got, required=want_text))
         if ir is not None and not iv.startswith('E:CRASH'):
             if not same_value(iv, ir):
-                if 'tern' in ks or 'ifonly' in ks:
-                    key = 'reparse:ternary'
+                if ir == 'E:Parse':
+                    key = 'reparse:ternary' if ('tern' in ks or 'ifonly' in ks) else 'reparse:unparsable'
                 elif 'small-truth' in cells or (has_small_amount_truth(e) and ({'*', '/'} & ks) and has_commodity_literal(e)):
                     key = 'reparse:display-zero-truth'
+                elif 'tern' in ks or 'ifonly' in ks:
+                    key = 'reparse:ternary'
                 else:
                     key = 'reparse:%s' % cat
                 res.violations.append(dict(key=key, desc='%s prints as %s, which evaluates to %s instead of %s' % (c.text, ip, ir, iv),
